@@ -97,11 +97,12 @@ def defaultName (v : Node) : String × Bool :=
 
 structure Pairing where
   number : Nat
+  loc : Int := 0              -- source position of this occurrence of the placeholder
   col : SRes ColInfo          -- the column the placeholder is compared with / assigned to / inserted into
 deriving Inhabited
 
-def paramOf (n : Node) : Option Nat :=
-  if n.isKind "ParamRef" then some (n.get "Number").natVal
+def paramOf (n : Node) : Option (Nat × Int) :=
+  if n.isKind "ParamRef" then some ((n.get "Number").natVal, (n.get "Location").intVal)
   else if n.isKind "TypeCast" then none     -- an explicitly cast placeholder takes the cast's type, not the column's
   else none
 
@@ -120,7 +121,7 @@ partial def exprPairs (scopes : List Scope) (e : Node) : List Pairing :=
             let ps := (match b with
               | .list is => is.filterMap paramOf
               | _ => (paramOf b).toList)
-            ps.map (fun n => { number := n, col := resolveCol scopes q c })
+            ps.map (fun n => { number := n.1, loc := n.2, col := resolveCol scopes q c })
           | none => []
         else [])
     direct ++ (if l.isKind "A_Expr" || l.isKind "BoolExpr" then exprPairs scopes l else []) ++
@@ -241,7 +242,7 @@ def analyzeLevel (c : Cat) : Nat → List (String × List ColInfo) → List Scop
         let ps := rows.flatMap (fun row => (row.zipIdx).filterMap (fun (v, i) =>
           (paramOf v).map (fun n =>
             let cn := targets.getD i ""
-            ({ number := n, col := match cols.filter (·.name == cn) with
+            ({ number := n.1, loc := n.2, col := match cols.filter (·.name == cn) with
                 | [ci] => .ok ci
                 | [] => .error (.columnMissing cn)
                 | _ => .error (.columnAmbiguous cn) } : Pairing))))
@@ -253,7 +254,7 @@ def analyzeLevel (c : Cat) : Nat → List (String × List ColInfo) → List Scop
         let sets := (stmt.get "TargetList").items
         let missing := sets.filter (fun rt => !cols.any (·.name == (rt.get "Name").strVal))
         pure (sets.filterMap (fun rt => (paramOf (rt.get "Val")).map (fun n =>
-            ({ number := n, col := match cols.filter (·.name == (rt.get "Name").strVal) with
+            ({ number := n.1, loc := n.2, col := match cols.filter (·.name == (rt.get "Name").strVal) with
                 | [ci] => .ok ci
                 | _ => .error (.columnMissing (rt.get "Name").strVal) } : Pairing))), !missing.isEmpty)
       | _ => pure ([], false) : SRes (List Pairing × Bool))
